@@ -48,13 +48,14 @@ def Walker.start (root : Node) (inhibit : Bool) : Walker Node := { Walker.new ro
 theorem runInv_start (D : Path → Prop) (root : Node) (S S' : List (Key × VH)) (steps : List (Step VH)) (inhibit : Bool) :
     RunInv H ps D root S S' [] steps (Walker.start root inhibit) (⟨[], flatStore H ps root, [], []⟩ : TW Node) := by
   refine ⟨?_, rfl, Or.inl ⟨⟨by simp, rfl, rfl, rfl⟩, by simp⟩, rfl⟩
-  refine ⟨Pos.wf_new, rfl, ?_, ?_, ?_, trivial, ?_, ?_, rfl, rfl, ?_⟩
+  refine ⟨Pos.wf_new, rfl, ?_, ?_, ?_, trivial, ?_, ?_, rfl, rfl, ?_, rfl, ?_⟩
   · simp [Walker.start, Walker.new, Walker.newInner, flatStore]
   · simp [Walker.start, Walker.new, Walker.newInner]
   · intro sp rest e; cases e
   · intro sp hsp; cases hsp
   · intro sp hsp; cases hsp
   · intro o ho; cases ho
+  · intro sp hsp; cases hsp
 
 /-- `conclude` after a script -/
 theorem conclude_spec (hs : H.Sound) {D : Path → Prop} {root : Node} {S S' : List (Key × VH)} (hS : KeysOK S)
@@ -63,8 +64,9 @@ theorem conclude_spec (hs : H.Sound) {D : Path → Prop} {root : Node} {S S' : L
     (h : RunInv H ps D root S S' all [] w a) :
     ∃ pages, w.conclude H = .ok (.root (specNode H S' []) pages) ∧
       ∀ o ∈ pages, ∃ P pg d b, o = .updated P pg d b ∧ pg.nodes.length = 126 ∧
-        ∀ q, q ≠ [] → q.length ≤ 256 → specPage q = P → D q → Mean S' q →
-          pg.nodes.getD (specIndex q) H.term = specNode H S' q := by
+        (∀ q, q ≠ [] → q.length ≤ 256 → specPage q = P → D q → Mean S' q →
+          pg.nodes.getD (specIndex q) H.term = specNode H S' q) ∧
+        ∃ base, BaseOf ps P base ∧ DiffNames H pg.nodes base d := by
   obtain ⟨w1, hw1, hs1, hsame1⟩ := sim_compactUp H ps h.sim none (by intro t ht; cases ht)
   rw [h.par] at hs1
   simp only [Option.map_none] at hs1
@@ -105,8 +107,8 @@ theorem conclude_spec (hs : H.Sound) {D : Path → Prop} {root : Node} {S S' : L
       rw [hs1.root]; exact htw.1
     rw [this]
   · intro o ho
-    obtain ⟨P, pg, d, b, st, e, hmem, hl, hm⟩ := hs1.outs o ho
-    refine ⟨P, pg, d, b, e, hl, ?_⟩
+    obtain ⟨P, pg, d, b, st, e, hmem, hl, hm, hdiff⟩ := hs1.outs o ho
+    refine ⟨P, pg, d, b, e, hl, ?_, hdiff⟩
     intro q hq hql hqp hD hmean
     rw [hm q hq hql hqp]
     exact htw.2 (P, st) hmem q hq hqp hql hD hmean
